@@ -4,10 +4,17 @@ set -u
 cd "$(dirname "$0")"
 export CARGO_NET_OFFLINE=true
 mkdir -p work evidence replays
-python3 tools/vendor.py "$PWD/vendor" harness/Cargo.lock || exit 1
+SR=$(rustc +nightly --print sysroot 2>/dev/null)
+STDLOCK="$SR/lib/rustlib/src/rust/library/Cargo.lock"
+if [ -f "$STDLOCK" ]; then
+  VENDOR_STD_LIBRARY="$SR/lib/rustlib/src/rust/library" python3 tools/vendor.py "$PWD/vendor" harness/Cargo.lock "$STDLOCK" || exit 1
+else
+  python3 tools/vendor.py "$PWD/vendor" harness/Cargo.lock || exit 1
+fi
 if [ "${1:-}" = "--vendor-only" ]; then exit 0; fi
 # Pre-build (failures of optional sanitizer flavours are reported by the checks as 'unavailable', never as violations).
 ./check build native || exit 1
 ./check build miri || echo "setup: miri flavour unavailable" >&2
 ./check build asan || echo "setup: asan flavour unavailable" >&2
+./check build tsan || echo "setup: tsan flavour unavailable" >&2
 exit 0
